@@ -84,6 +84,8 @@ def TransformOK (z : Renderer α β) : Prop :=
   z.scaleX = Arith.ofInt z.r.dx / (z.viewBox.maxX - z.viewBox.minX) ∧ z.biasX = -z.viewBox.minX ∧
   z.scaleY = Arith.ofInt z.r.dy / (z.viewBox.maxY - z.viewBox.minY) ∧ z.biasY = -z.viewBox.minY
 
+instance [DecidableEq α] (z : Renderer α β) : Decidable (TransformOK z) := by unfold TransformOK; exact inferInstance
+
 theorem transformOK_iff (z : Renderer α β) : TransformOK z ↔ z.recalcTransform = z := by
   rcases z with ⟨r, sx, bx, sy, by_, vb, pal, l0, l1, cs, ns, dis, pst, psx, psy, fill, cr, nr, px, py, fx, fy⟩
   simp only [TransformOK, Renderer.recalcTransform, Renderer.mk.injEq, true_and, and_true]
@@ -903,5 +905,69 @@ theorem startPath_gradient_fill (z : Renderer α β) (adj : UInt8) (x y : α) (g
           simp only [Paint.gradient.injEq] at h1
           rw [h1]
       · rw [if_neg hg] at h2; cases h2
+
+/-! ## concrete instances at (float32, float64), used by the non-vacuity examples of the property files -/
+
+namespace Ex
+open Ivg.Num Ivg.Lemmas.RendererVM.Ex
+
+/-- the zero value of `render.Renderer` does NOT satisfy the invariant at float32 (`0/0` is NaN, `-0 ≠ +0`):
+    it holds only once `SetRasterizer` or `Reset` has been called -/
+theorem zero_not_transformOK : ¬ TransformOK (Renderer.zero : Renderer F32 F64) := by decide +kernel
+
+/-- a life of a Renderer: 24×24 at offset (10,20) with LOD [32,64) — the path is outside the range;
+    `SetRasterizer` to 48×48 between two paths of the same graphic — now inside the range; the same size at
+    another origin; then the SAME icon (same viewBox, same palette) again at 24×24 -/
+def hist : List (RenOp F32) :=
+  [ .rast ⟨10, 20, 34, 44⟩, .call (.reset defaultViewBox defaultPalette),
+    .call (.setLOD (n 32) (n 64)),
+    .call (.startPath 0 (n 0) (n 0)), .call (.d2 .L (n 1) (n 1)), .call .closeEnd,
+    .rast ⟨0, 0, 48, 48⟩,
+    .call (.startPath 0 (n 0) (n 0)), .call (.d2 .L (n 1) (n 1)), .call .closeEnd,
+    .rast ⟨100, 100, 148, 148⟩,
+    .call (.startPath 0 (n 0) (n 0)), .call (.d1 .H (n 1)), .call .closeEnd,
+    .rast ⟨0, 0, 24, 24⟩, .call (.reset defaultViewBox defaultPalette),
+    .call (.startPath 0 (n 0) (n 0)), .call (.d1 .H (n 1)), .call .closeEnd ]
+
+theorem hist_ok : HBody hist := by
+  refine .rast _ _ <| .reset _ _ _ <| .styling _ _ rfl <| .path 0 _ _ [_] _ (by decide) <|
+    .rast _ _ <| .path 0 _ _ [_] _ (by decide) <| .rast _ _ <| .path 0 _ _ [_] _ (by decide) <|
+    .rast _ _ <| .reset _ _ _ <| .path 0 _ _ [_] _ (by decide) .nil
+
+def resetSizes : List (RasterOp F32 F64) → List (Int × Int)
+  | [] => []
+  | .reset w h :: ops => (w, h) :: resetSizes ops
+  | _ :: ops => resetSizes ops
+
+def moveXs : List (RasterOp F32 F64) → List F32
+  | [] => []
+  | .moveTo x _ :: ops => x :: moveXs ops
+  | _ :: ops => moveXs ops
+
+set_option maxRecDepth 100000 in
+/-- what the specification side prescribes for `hist`: nothing for the first path (height 24 is outside
+    [32,64)), then one paint over each of the three later rectangles -/
+theorem hist_spec :
+    (paintsH (β := F64) posInf (⟨0, 0, 0, 0⟩ : Rect) (Renderer.zero : Renderer F32 F64).viewBox
+      (absVM (Renderer.zero : Renderer F32 F64)) hist).map (·.1) =
+      [⟨0, 0, 48, 48⟩, ⟨100, 100, 148, 148⟩, ⟨0, 0, 24, 24⟩] := by decide +kernel
+
+set_option maxRecDepth 100000 in
+/-- … and what the model does with it (with the model of `AbsArcTo`): the `Draw`s go to the current
+    rectangles, the rasteriser is `Reset` to their sizes, and the start point `(0,0)` of the default viewBox
+    is mapped to x = 24 at width 48 and to x = 12 at width 24 (the scale follows the rectangle). -/
+theorem hist_run :
+    let out := ((Renderer.zero : Renderer F32 F64).runOps arcF32 posInf hist).2
+    (drawsOf out).map (·.1) = [⟨0, 0, 48, 48⟩, ⟨100, 100, 148, 148⟩, ⟨0, 0, 24, 24⟩] ∧
+    resetSizes out = [(48, 48), (48, 48), (24, 24)] ∧ moveXs out = [n 24, n 24, n 12] := by decide +kernel
+
+/-- a well-bracketed history with `SetRasterizer` before a graphic, between paths and inside a path -/
+theorem wb_example : WellBracketedOps false
+    [RenOp.rast ⟨0, 0, 8, 8⟩, .call (.setCSel 1), .call (.startPath 0 F32.zero F32.zero), .rast ⟨0, 0, 9, 9⟩,
+     .call (.d1 .H F32.zero), .call .closeEnd, .rast ⟨1, 1, 9, 9⟩, .call (.setLOD F32.zero F32.posInf),
+     .call (.startPath 1 F32.zero F32.zero)] := by
+  simp [WellBracketedOps, pathStepOp, pathStep]
+
+end Ex
 
 end Ivg.RenderHist
